@@ -22,8 +22,8 @@ MIN_EVENTS = {"matrices loaded and compared": 1000,
               "rows dropped together with their response": 200,
               "values imputed": 200, "infinities replaced": 200}
 TIMEOUT = {"quick": 900, "thorough": 3500}
-N_MAT = {"quick": 110, "thorough": 2400}     # matrices per shard
-N_EXPORT = {"quick": 1, "thorough": 5}       # exports per shard
+N_MAT = {"quick": 110, "thorough": 8000}     # matrices per shard
+N_EXPORT = {"quick": 1, "thorough": 12}       # exports per shard
 RULE = ("case = (training matrix written by the harness: 2..40 rows, NaN / "
         "inf patterns by row, column and response class, all-NaN columns, "
         "missing classes) x requested feature subset x which_type x the 3 "
